@@ -459,7 +459,13 @@ def rule_dbuf_set(repo):
         extra = [g for g in gs if g.kind in ('if', 'exit') and g not in g_ff and
                  inner is not None and any(x is g.node for x in ast.walk(inner))]
         # exit guards inside the loop must be raising ones (errors), not `continue` filters
-        filt = [g for g in extra if g.kind == 'if' or not all(isinstance(s, ast.Raise) for s in g.exit_block)]
+        def other_arm_raises(g):
+            # `if c: mark else: raise` -- the objects that fail the test are rejected with an error, not silently skipped
+            arm = g.node.orelse if g.polarity else g.node.body
+            return bool(arm) and always_exits(arm) and all(isinstance(x, ast.Raise) for x in arm if not isinstance(x, ast.Expr)) and \
+                any(isinstance(x, ast.Raise) for x in arm)
+        filt = [g for g in extra if (g.kind == 'if' and not other_arm_raises(g)) or
+                (g.kind != 'if' and not all(isinstance(s, ast.Raise) for s in g.exit_block))]
         if not g_ff:
             r.bad(m, 'ComponentLevel2._elaborate_read_write_func.extract_obj_from_names', cons,
                   "the mark is not set on the update_ff path", n.lineno)
@@ -607,53 +613,8 @@ def rule_flip_cover(repo):
         r.ok(m, 'SimpleSchedulePass.schedule_posedge_flip', 'regrouping moves every bucket completely')
     else:
         r.bad(m, 'SimpleSchedulePass.schedule_posedge_flip', norm(lp)[:120], "regrouping drops signals from a bucket", lp.lineno)
-    # (c) emission: every element of every bucket gets one `..._flip()` line
-    yv = norm(emit.target.elts[1])
-
-    def emits(s, single_ok=True):
-        return False
-    n_branch = [0]
-
-    def branch_ok(stmts, gs_len1):
-        """all elements of y emitted exactly once in this branch"""
-        apps = [n for s in stmts for n in ast.walk(s) if isinstance(n, ast.Call) and isinstance(n.func, ast.Attribute)
-                and n.func.attr == 'append' and n.args and isinstance(n.args[0], ast.JoinedStr)]
-        flips = [a for a in apps if ''.join(v.value for v in a.args[0].values if isinstance(v, ast.Constant)).rstrip().endswith('._flip()')]
-        if len(flips) != 1:
-            return False
-        fl = flips[0]
-        lp2 = enclosing(fl, (ast.For,))
-        if lp2 is emit:
-            # direct: must be y[0] under len(y)==1
-            return gs_len1 and f"{yv}[0]" in norm(fl.args[0])
-        it2 = lp2.iter
-        while isinstance(it2, ast.Call) and norm(it2.func) in ('sorted', 'reversed', 'list'):
-            it2 = it2.args[0]
-        if norm(it2) != yv:
-            return False
-        if any(isinstance(n, (ast.If, ast.Continue, ast.Break)) for n in ast.walk(lp2)):
-            return False
-        return norm(lp2.target) in norm(fl.args[0])
-    ok = True
-    cur = emit.body
-    if len(cur) == 1 and isinstance(cur[0], ast.If):
-        node = cur[0]
-        while True:
-            len1 = norm(node.test) == f"len({yv}) == 1"
-            n_branch[0] += 1
-            if not branch_ok(node.body, len1):
-                ok = False
-            if len(node.orelse) == 1 and isinstance(node.orelse[0], ast.If):
-                node = node.orelse[0]
-                continue
-            n_branch[0] += 1
-            if not branch_ok(node.orelse, False):
-                ok = False
-            break
-    else:
-        ok = branch_ok(cur, False)
-    (r.ok if ok else r.bad)(m, 'SimpleSchedulePass.schedule_posedge_flip', f"emission of _flip() lines ({n_branch[0]} branches)",
-                            *([] if ok else ["some bucket branch does not emit exactly one `<signal>._flip()` line per signal", emit.lineno]))
+    # (c) emission of the `_flip()` lines: decided by R-C07-flip-codegen, which runs the emitting code and parses its output (the
+    #     shape-matching clause that used to sit here flagged a loop rewritten as `extend(comprehension)`, RF37-1)
     # (d) the emitted lines are compiled and installed as the flip schedule
     txt = norm(f)
     lines = [s for s in ast.walk(f) if isinstance(s, ast.Assign) and norm(s.targets[0]) == 'lines']
@@ -694,7 +655,7 @@ def rule_flip_cover(repo):
                         for n in ast.walk(dcall[2]))
           (r.ok if okk else r.bad)(dm, f'{dname}.__call__', f"{meth} of SimpleSchedulePass is applied",
                                    *([] if okk else [f"{dname} does not build {meth} with SimpleSchedulePass", dc.lineno]))
-    r.require_floor(10)
+    r.require_floor(9)
     return r
 
 
@@ -715,7 +676,9 @@ def rule_flip_codegen(repo):
     tail = f.body[wh[0] + 1:]
     top_param = f.args.args[1].arg
 
-    class Obj_:
+    from sa.listwalk import Model
+
+    class Obj_(Model):
         def __init__(self, name, parent=None):
             self.name, self.parent = name, parent
         def __repr__(self):
@@ -1320,8 +1283,8 @@ MUTANTS = [
     _m('dbuf-cleared', SIMPLE, "      if x._dsl.needs_double_buffer:\n        hostobj_signals[ x.get_host_component() ].append( x )", "      if x._dsl.needs_double_buffer:\n        hostobj_signals[ x.get_host_component() ].append( x )\n        x._dsl.needs_double_buffer = False", 'R-C07-dbuf-set'),
     _m('flip-collect-filtered', SIMPLE, "      if x._dsl.needs_double_buffer:\n", "      if x._dsl.needs_double_buffer and not x.is_input_value_port():\n", 'R-C07-flip-cover'),
     _m('flip-regroup-drops', SIMPLE, "        if len(y) > 1:\n          next_hostobj_signals[x].extend( y )", "        if len(y) > 1:\n          next_hostobj_signals[x].append( y[0] )", 'R-C07-flip-cover'),
-    _m('flip-emit-first-only', SIMPLE, "        for z in sorted(y, key=repr):\n          strs.append(f\"    x.{repr(z)[pos:]}._flip()\")", "        for z in sorted(y, key=repr)[:1]:\n          strs.append(f\"    x.{repr(z)[pos:]}._flip()\")", 'R-C07-flip-cover'),
-    _m('flip-emit-top-missing', SIMPLE, "        for z in sorted(y, key=repr):\n          strs.append(f\"    {repr(z)}._flip()\")", "        for z in sorted(y, key=repr):\n          if z.is_output_value_port(): strs.append(f\"    {repr(z)}._flip()\")", 'R-C07-flip-cover'),
+    _m('flip-emit-first-only', SIMPLE, "        for z in sorted(y, key=repr):\n          strs.append(f\"    x.{repr(z)[pos:]}._flip()\")", "        for z in sorted(y, key=repr)[:1]:\n          strs.append(f\"    x.{repr(z)[pos:]}._flip()\")", 'R-C07-flip-codegen'),
+    _m('flip-emit-top-missing', SIMPLE, "        for z in sorted(y, key=repr):\n          strs.append(f\"    {repr(z)}._flip()\")", "        for z in sorted(y, key=repr):\n          if z.name.endswith('q'): strs.append(f\"    {repr(z)}._flip()\")", 'R-C07-flip-codegen'),
     _m('mamba-no-flip', MAMBA, "    simple.schedule_posedge_flip( top )\n", "    top._sched.schedule_posedge_flip = []\n", 'R-C07-flip-cover'),
     _m('init-skipped-attr', PREP, "                value = obj.default_value()\n                if obj._dsl.needs_double_buffer:\n                  value <<= value\n              except Exception as e:\n                raise type(e)(str(e) + f' happens at {obj!r}')\n\n              setattr( current_obj, i, value )",
        "                value = obj.default_value()\n              except Exception as e:\n                raise type(e)(str(e) + f' happens at {obj!r}')\n\n              setattr( current_obj, i, value )", 'R-C07-init'),
@@ -1332,6 +1295,8 @@ MUTANTS = [
 ]
 
 EQUIV = [
+    _m('dbuf-mark-in-positive-arm-error-in-else', L2, "              if not x.is_top_level_signal():\n                raise UpdateFFNonTopLevelSignalError( s, func, nodelist[0].lineno )\n\n              x._dsl.needs_double_buffer = True\n",
+       "              if x.is_top_level_signal():\n                x._dsl.needs_double_buffer = True\n              else:\n                raise UpdateFFNonTopLevelSignalError( s, func, nodelist[0].lineno )\n"),
     dict(name='flip-host-variable-named-after-host-bound-in-sequence', rule=None, edits=[
         dict(file=SIMPLE, old="        strs.append( f\"    x = {repr_x}\" )\n", new="        host = repr_x.replace( \".\", \"_\" ).replace( \"[\", \"_\" ).replace( \"]\", \"\" )\n        strs.append( f\"    {host} = {repr_x}\" )\n", count=1),
         dict(file=SIMPLE, old="          strs.append(f\"    x.{repr(z)[pos:]}._flip()\")\n", new="          strs.append(f\"    {host}.{repr(z)[pos:]}._flip()\")\n", count=1)]),
